@@ -212,7 +212,7 @@ example : ∃ s rest, parseFile bytesSrc storedInflate Profile.checked demoFile 
         footprint_bound _ storedInflate_bounded _ _ s rest hp⟩
 
 /-- the account of the demo file, and the bound -/
-example : Alloc.reserved demoFile = 9615779 ∧ Alloc.bound demoFile.length = 69148672 := by
+example : Alloc.reserved demoFile = 9693179 ∧ Alloc.bound demoFile.length = 69148672 := by
   decide +kernel
 
 end examples
